@@ -78,7 +78,8 @@ package server
 //@   ensures [C03:user] hasAuth ==> username == handlerUser(req.AuthHandler, presentedUser(stunMsg), presentedRealm(stunMsg), req.SrcAddr, int(callingMethod))
 //@   ensures [C03:authed] authOK == hasAuth && (hasAuth ==> authUser == username)
 //@   ensures [C03:no-credentials] !hasAttr(stunMsg, stun.AttrMessageIntegrity) ==> !hasAuth
-//@   ensures [C03:answered] !hasAuth ==> forall c :: c != req.Conn ==> pktWrites[c] == old(pktWrites[c])
+//@   ensures [C03:answered] forall c :: c != req.Conn ==> pktWrites[c] == old(pktWrites[c])
+//@   ensures [C03:silent-success] hasAuth ==> pktWrites == old(pktWrites)
 //@   ghost-set authOK = hasAuth
 //@   ghost-set authUser = username when hasAuth
 //@   assigns pktWrites, authOK, authUser, lastMinted
@@ -93,3 +94,29 @@ package server
 //@   ensures res1 == nil ==> lastMinted == res0
 //@   ensures res1 != nil ==> lastMinted == old(lastMinted)
 //@   assigns lastMinted
+
+//@ func ipMatchesFamily
+//@   pure
+//@   ensures [C01:family] res == famOK(ip, int(family))
+
+//@ func allocationLifeTime
+//@   requires m != nil
+//@   pure
+//@   ensures [C06:cap-default] res == ((present(m, stun.AttrLifetime, 4) && be32(attr(m, stun.AttrLifetime), 0) * 1000000000 < 3600000000000) ? be32(attr(m, stun.AttrLifetime), 0) * 1000000000 : int(req.AllocationLifetime))
+
+//@      // ---- ChannelBind (C01, C03, C04, C07, C08, C19)
+//@ spec func peerMatches(addr net.Addr, m *stun.Message) bool = isUDP(addr) && ipStr(ipOf(addr)) == xorAddrIP(m, stun.AttrXORPeerAddress) && portOf(addr) == xorAddrPort(m, stun.AttrXORPeerAddress)
+
+//@ func handleChannelBindRequest
+//@   requires reqWF(req) && ownWF(req) && stunMsg != nil && req.NonceHash != nil
+//@   fresh authOK, granted
+//@   at-call buildAndSend assert [C19:correlated] respondsTo(req, stunMsg, arg0, arg1, arg2)
+//@   at-call buildAndSendErr assert [C19:correlated] respondsTo(req, stunMsg, arg0, arg1, arg3)
+//@   at-call buildAndSend assert [C03,C19:success-only-authed] int(typeOf(arg2).Class) == 2 ==> authOK
+//@   at-call buildAndSendErr assert [C08:conflict-400] (arg2 == allocation.ErrSamePeerDifferentChannel || arg2 == allocation.ErrSameChannelDifferentPeer) ==> errCodeOf(arg3) == 400 && int(typeOf(arg3).Class) == 3
+//@   at-call (*allocation.Manager).GetAllocationForUserID assert [C03,C04:own-tuple] recv == req.AllocationManager && ownTuple(arg0, req) && authOK && arg1 == authUser
+//@   at-call (*allocation.Manager).GrantPermission assert [C01:veto-subject] recv == req.AllocationManager && arg0 == req.SrcAddr && ipStr(arg1) == xorAddrIP(stunMsg, stun.AttrXORPeerAddress)
+//@   at-call (*allocation.Allocation).AddChannelBind assert [C01,C04:own-allocation] recv == ownAlloc(req)
+//@   at-call (*allocation.Allocation).AddChannelBind assert [C07:timeouts] arg1 == req.ChannelBindTimeout && arg2 == req.PermissionTimeout
+//@   at-call (*allocation.Allocation).AddChannelBind assert [C01,C08:binding] int(arg0.Number) == be16(attr(stunMsg, stun.AttrChannelNumber), 0) && peerMatches(arg0.Peer, stunMsg)
+//@   ensures [C03:answered-only-requester] forall c :: c != req.Conn ==> pktWrites[c] == old(pktWrites[c])
